@@ -1029,7 +1029,7 @@ func paramRooted(f LinForm) bool {
 		if !strings.Contains(k, "$") {
 			return false
 		}
-		for _, bad := range []string{"phi:", "phi{", "val:", "call:", "new(", "local(", "loop", "…", "^"} {
+		for _, bad := range []string{"phi:", "phi{", "val:", "call:", "callee(", "new(", "local(", "loop", "…", "^"} {
 			if strings.Contains(k, bad) {
 				return false
 			}
@@ -1530,7 +1530,13 @@ func (a *absFn) Obligations() []*AObl {
 							if goal, ok := a.translateLF(rq, x.Common().Args); ok {
 								a.oblige(in, "need-len", goal, fmt.Sprintf("%s requires %s <= 0", FuncName(g), rq.String()))
 							} else {
-								o := &AObl{Fn: a.fn, Instr: in, Kind: "need-len", Goal: rq, Desc: fmt.Sprintf("%s requires %s <= 0 (untranslatable)", FuncName(g), rq.String())}
+								// keep the callee's roots recognisable as such: they are not this
+								// function's parameters and must not be deferred further up
+								loc := LinForm{coef: map[string]int64{}, c: rq.c}
+								for k, v := range rq.coef {
+									loc.coef["callee("+FuncName(g)+"):"+k] = v
+								}
+								o := &AObl{Fn: a.fn, Instr: in, Kind: "need-len", Goal: loc, Desc: fmt.Sprintf("%s requires %s <= 0 (untranslatable)", FuncName(g), rq.String())}
 								a.obls = append(a.obls, o)
 							}
 						}
